@@ -1606,7 +1606,7 @@ pub fn update_record_with_output<T: ColumnType>(
                 loc,
                 conditions,
                 connection,
-                expected: mut expected @ (StatementExpect::Ok | StatementExpect::Count(_)),
+                mut expected,
                 retry,
             },
             RecordOutput::Query {
@@ -1620,8 +1620,11 @@ pub fn update_record_with_output<T: ColumnType>(
             // but don't care about the output.
             // DuckDB has a few of these.
 
-            if let StatementExpect::Count(expected_count) = &mut expected {
-                *expected_count = rows.len() as u64;
+            match &mut expected {
+                StatementExpect::Count(expected_count) => *expected_count = rows.len() as u64,
+                // The statement was expected to fail but it succeeded (and returned rows).
+                StatementExpect::Error(_) => expected = StatementExpect::Ok,
+                StatementExpect::Ok => {}
             }
 
             Some(Record::Statement {
